@@ -94,12 +94,22 @@ def reduce_hazards(ctx, tk):
             k = idx.a[1].a[1]
             ok = np_call(k, {"searchsorted"}) and any(is_const(v, "left") for _, v in k.a[2]) if k.k == "call" else None
             if k.k == "call" and np_call(k, {"searchsorted"}) and any(is_const(v, "right") for _, v in k.a[2]):
-                ok = False
+                # integers: #{starts <= v - 1} == #{starts < v}  (side='right' with the needle lowered by one)
+                needle = k.a[1][1] if len(k.a[1]) > 1 else None
+                lowered = needle is not None and needle.k == "bin" and needle.a[0] == "-" and is_const(needle.a[2], 1)
+                ok = True if lowered else False
             ctx.decide("C05.a", f, "the trimmed row starts end before the first of the trailing empty rows (searchsorted(starts, last start, side='left'))",
                        ok, "cut point %s" % (k,), node=c.node, key="trim", engine="E5")
             # padded back to n rows
             pads = find_calls(fa, lambda c2: np_call(c2, {"pad"}))
             okp = any(fa.cfg.can_reach(n, [pn]) for pn, _ in pads)
+            if not okp:
+                # the same by hand: a buffer with one entry per row, the reduced part copied in, the tail set to the pad value
+                bufs = [m for m in fa.cfg.stmts() if m.kind == "stmt" and isinstance(m.ast, ast.Assign) and np_call(fa.term(m.ast.value, m), {"empty", "zeros", "full"})
+                        and any(x.k == "call" and call_name(x) == "len" for x in walk(fa.term(m.ast.value, m))) and fa.cfg.can_reach(n, [m])]
+                tails = [m for m in fa.cfg.stmts() if m.kind == "stmt" and isinstance(m.ast, ast.Assign) and isinstance(m.ast.targets[0], ast.Subscript)
+                         and isinstance(m.ast.targets[0].slice, ast.Slice) and m.ast.targets[0].slice.upper is None and m.ast.targets[0].slice.lower is not None and fa.cfg.can_reach(n, [m])]
+                okp = True if (bufs and tails) else False
             ctx.decide("C05.a", f, "the trimmed result is padded back to one entry per row", True if okp else False,
                        "no np.pad after the trimmed reduceat: trailing empty rows are missing from the result", node=c.node, key="pad-back", engine="E1")
         elif any(np_call(a, {"minimum", "clip"}) for a in alts(idx)):
